@@ -6,6 +6,7 @@ package gcc
 import (
 	"container/list"
 	"errors"
+	"maps"
 	"sync"
 	"time"
 
@@ -118,7 +119,7 @@ func (p *LeakyBucketPacer) Write(header *rtp.Header, payload []byte, attributes 
 		header:     &hdr,
 		payload:    buf,
 		size:       len(payload),
-		attributes: attributes,
+		attributes: maps.Clone(attributes),
 	})
 	p.qLock.Unlock()
 
